@@ -311,7 +311,7 @@ def _pareto_obls():
                  '%s.is_pareto_optimal_against, strict and non-strict (recursive split of the points)' % a,
                  '2 points vs 1 point x 2 coordinates', env={'VERIF_PARETO': a}))
   for a in ['fast1', 'fast2']:
-    out.append(O('C11.%s_against_4v1' % a, 'harness.c11_pareto', 'against_4v1_distinct_x', 200 if a == 'fast1' else None, 1500,
+    out.append(O('C11.%s_against_4v1' % a, 'harness.c11_pareto', 'against_4v1_distinct_x', 450 if a == 'fast1' else None, 1500,
                  '%s.is_pareto_optimal_against on 4 points with distinct first coordinates (the recursion really splits)' % a,
                  '4 points (x fixed distinct, y arbitrary) vs 1 arbitrary point, strict and non-strict',
                  env={'VERIF_PARETO': a}))
@@ -377,7 +377,13 @@ PROPS['C09'] = dict(
         O('C09.config_conditional', 'harness.c09_wire', 'config_conditional', 300, 1200, 'conditional search space of depth 1..2 survives', env=_SYMFF),
         O('C09.measurement', 'harness.c09_wire', 'measurement', 150, 600, 'Measurement round trip, elapsed time to the microsecond', env=_SYM),
         O('C09.metric_information', 'harness.c09_wire', 'metric_information', 90, 600, 'MetricInformation incl. safety config', env=_SYM),
-        O('C09.trial', 'harness.c09_wire', 'trial_roundtrip', 300, 1500, 'Trial round trip for every status, all parameter kinds, creation/completion times', env=_SYMFF),
+    ] + [
+        O('C09.trial_%s_m%d' % (n.lower(), m), 'harness.c09_wire', 'trial_roundtrip', 400, 900,
+          'Trial round trip, all parameter kinds (symbolic values), ids 1 / 12 / 2**40, creation/completion time patterns; '
+          'trial status %s, %d intermediate measurement(s)' % (n, m),
+          env=dict(_SYMFF, VERIF_SLICE=str(k * 2 + m)))
+        for k, n in enumerate(['ACTIVE', 'REQUESTED', 'STOPPING', 'COMPLETED', 'INFEASIBLE']) for m in (0, 1)
+    ] + [
         O('C09.suggestion_and_delta', 'harness.c09_wire', 'suggestion_and_delta', 300, 900, 'SuggestDecision with TrialSuggestion + MetadataDelta', env=_SYMFF),
         O('C09.study_config', 'harness.c09_wire', 'study_config_roundtrip', 600, 1500, 'oss.StudyConfig incl. algorithm, noise, stopping spec, metadata', env=_SYMFF),
     ])
